@@ -166,3 +166,101 @@ func observeDo(rec *vr.Rec, reps int) {
 }
 
 var _ = vr.Seed
+
+// responseOfAnAbandonedRequest: request A is answered by a separate response BEFORE its own acknowledgement arrives (the
+// ACK is lost); A's caller gives up while A still waits for that acknowledgement, so A ends with an error although a
+// response for it has been received. Request B (another token) is issued next; the peer acknowledges it and takes its
+// time with the response. B returns B's response - never what was received for A.
+func responseOfAnAbandonedRequest(rec *vr.Rec, reps int) {
+	s := sim.NewMemSession()
+	cc := sim.NewUDPConn(s, sim.UDPOpts{Pool: pool.New(4, 2048)})
+	defer cc.Close()
+	seen := 0
+	waitReq := func(tok []byte) (ref.Msg, bool) {
+		var got ref.Msg
+		ok := sim.WaitFor(3*time.Second, func() bool {
+			log := s.Log()
+			for ; seen < len(log); seen++ {
+				if m, err := ref.ParseUDP(log[seen].Data); err == nil && m.Code == 1 && bytes.Equal(m.Token, tok) {
+					got = m
+					seen++
+					return true
+				}
+			}
+			return false
+		})
+		return got, ok
+	}
+	type res struct {
+		tok, body []byte
+		err       error
+	}
+	do := func(ctx context.Context, path string, tok []byte) chan res {
+		ch := make(chan res, 1)
+		go func() {
+			req := cc.AcquireMessage(ctx)
+			_ = req.SetupGet(path, tok)
+			resp, err := cc.Do(req)
+			cc.ReleaseMessage(req)
+			if err != nil {
+				ch <- res{err: err}
+				return
+			}
+			b, _ := resp.ReadBody()
+			r := res{tok: append([]byte(nil), resp.Token()...), body: b}
+			cc.ReleaseMessage(resp)
+			ch <- r
+		}()
+		return ch
+	}
+	for rep := 0; rep < reps; rep++ {
+		c := map[string]any{"scenario": "a request ends with an error after its response had arrived; the next request", "transport": "udp", "round": rep}
+		tokA, tokB := []byte{0xa0, byte(rep >> 8), byte(rep)}, []byte{0xb0, byte(rep >> 8), byte(rep)}
+		ctxA, cancelA := context.WithCancel(context.Background())
+		chA := do(ctxA, "/a", tokA)
+		if _, ok := waitReq(tokA); !ok {
+			cancelA()
+			<-chA
+			continue
+		}
+		_ = cc.Process(nil, ref.EncodeUDP(ref.Msg{Type: 1, Code: 0x45, MID: uint16(52000 + rep), Token: tokA, Payload: []byte(fmt.Sprintf("content of A in round %d", rep))}))
+		time.Sleep(300 * time.Microsecond)
+		cancelA()
+		rA := <-chA
+		ctxB, cancelB := context.WithTimeout(context.Background(), 3*time.Second)
+		chB := do(ctxB, "/b", tokB)
+		reqB, ok := waitReq(tokB)
+		if !ok {
+			cancelB()
+			<-chB
+			continue
+		}
+		_ = cc.Process(nil, ref.EncodeUDP(ref.Msg{Type: 2, Code: 0, MID: reqB.MID}))
+		var rB res
+		early := false
+		select {
+		case rB = <-chB:
+			early = true
+		case <-time.After(15 * time.Millisecond):
+			_ = cc.Process(nil, ref.EncodeUDP(ref.Msg{Type: 1, Code: 0x45, MID: uint16(56000 + rep), Token: tokB, Payload: []byte(fmt.Sprintf("content of B in round %d", rep))}))
+			rB = <-chB
+		}
+		cancelB()
+		rec.Eval(fmt.Sprintf("abandoned-then-next|%d", rep))
+		rec.Count("abandoned_request_rounds", 1)
+		if rA.err == nil {
+			rec.Count("abandoned_requests_that_still_completed", 1)
+		}
+		switch {
+		case rB.err != nil && early:
+			rec.Violation("C03/udp/after-abandoned-request/next-request-failed-early", rB.err.Error(), c)
+		case rB.err != nil:
+			rec.Violation("C03/udp/after-abandoned-request/next-request-failed", rB.err.Error(), c)
+		case !bytes.Equal(rB.tok, tokB) || string(rB.body) != fmt.Sprintf("content of B in round %d", rep):
+			rec.Violation("C03/udp/after-abandoned-request/foreign-response-delivered", fmt.Sprintf("request B (token %x) returned a response with token %x and payload %q (returned before its own response was sent: %v)", tokB, rB.tok, rB.body, early), c)
+			return
+		default:
+			rec.Count("next_requests_got_their_own_response", 1)
+		}
+	}
+}
